@@ -230,11 +230,11 @@ def pIter : Prog (List Str) := .step selNames fun l => .ret l
 def pOptPrefix (p : Str) (wm : Bool) : Prog (Option (List Entry)) :=
   listRows (selPrefix .selPrefixFull p) (selPrefix .selPrefix p) wm fun l => .ret (some l)
 
-/-- `everything` (nameserver.py:251-264) -/
+/-- `everything` (nameserver.py:252-265) -/
 def pEverything (wm : Bool) : Prog (List Entry) :=
   listRows (selAll .selAllFull) (selAll .selAll) wm fun l => .ret l
 
-/-- `optimized_metadata_search` (nameserver.py:211-235, with the de-duplication fix for metadata_all) -/
+/-- `optimized_metadata_search` (nameserver.py:211-236, with the de-duplication fix for metadata_all) -/
 def pOptMeta (all : Bool) (ts : Tags) (wm : Bool) : Prog (Option (List Entry)) :=
   .step (if all then selMetaAll (dedup ts) (dedup ts).length else selMetaAny ts) fun rs =>
     if wm then withMetaRows rs fun l => .ret (some l)
@@ -245,7 +245,7 @@ def removeLoop {α : Type} : List Str → Prog α → Prog α
   | [], k => k
   | n :: ns, k => .step (selIdByName n) fun o => deleteIfFound o (removeLoop ns k)
 
-/-- `remove_items` (nameserver.py:237-249) -/
+/-- `remove_items` (nameserver.py:238-250) -/
 def pRemoveItems (items : List Str) : Prog Unit :=
   .step pragmaFk fun _ => removeLoop items <| .step commit fun _ => .ret ()
 
